@@ -8,6 +8,7 @@
 use std::cell::RefCell;
 
 use scrut::escaping::Escaper;
+use scrut::output::OutputStream;
 use serde::Deserialize;
 use serde::Serialize;
 use serde_json::json;
@@ -36,6 +37,11 @@ pub struct C11Case {
     pub items: Vec<Item>,
     #[serde(default)]
     pub family: String,
+    /// observation: "" = `Escaper::escaped_expectation`; "generator" = the expectation line the generators
+    /// write for the output line (`OutputStream::to_output_string`, incl. ` (no-eol)` / ` (equal)` decorations
+    /// and the forced-escape rendering of lines that look like a command)
+    #[serde(default)]
+    pub via: String,
 }
 
 const BATCH: u64 = 64;
@@ -123,7 +129,7 @@ struct Seen {
     raw_kept: bool,
 }
 
-fn check_item(mode: &str, item: &Item) -> Result<Seen, Fail> {
+fn check_item_escaper(mode: &str, item: &Item) -> Result<Seen, Fail> {
     let esc = escaper(mode);
     let mut line = item.content.clone();
     if item.nl {
@@ -215,11 +221,123 @@ fn check_item(mode: &str, item: &Item) -> Result<Seen, Fail> {
     })
 }
 
+/// printable clause on one character of the written text; Ok(true) = version-skew character (counted only)
+fn printable_char(mode: &str, c: char) -> Result<bool, &'static str> {
+    if mode == "ascii" {
+        if (' '..='~').contains(&c) {
+            Ok(false)
+        } else {
+            Err(scalar_class(c))
+        }
+    } else if ut::is_cc(c) {
+        Err("cc")
+    } else if ut::is_cf(c) {
+        if ut::is_cf_after_7_0(c) {
+            Ok(true)
+        } else {
+            Err("cf")
+        }
+    } else if ut::is_cn(c) {
+        Err("cn")
+    } else {
+        Ok(false)
+    }
+}
+
+/// second observation: the line the generators write (`OutputStream::to_output_string`), parsed back as it is
+fn check_item_generator(mode: &str, item: &Item) -> Result<Seen, Fail> {
+    let esc = escaper(mode);
+    let mut line = item.content.clone();
+    if item.nl {
+        line.push(b'\n');
+    }
+    if line.is_empty() {
+        // no output, no line
+        return Ok(Seen { reading: "none", skew: false, raw_kept: false });
+    }
+    let out = OutputStream::from(line.clone()).to_output_string(None, &esc);
+    let shape = |what: &str| Fail {
+        group: "lossless",
+        clause: "generator:-/shape".into(),
+        detail: format!("{mode} mode: the generators write \"{}\" for the line \"{}\": {what}", show(out.as_bytes()), show(&line)),
+    };
+    let Some(r) = out.strip_suffix('\n') else {
+        return Err(shape("not terminated"));
+    };
+    if r.contains('\n') {
+        return Err(shape("more than one line"));
+    }
+    let mut skew = false;
+    for c in r.chars() {
+        match printable_char(mode, c) {
+            Ok(s) => skew |= s,
+            Err(class) => {
+                return Err(Fail {
+                    group: "unprintable",
+                    // unassigned code points: the same cause (and signature) as on the escaped_expectation path
+                    clause: if class == "cn" { "cn".to_string() } else { format!("{class}/generator-path") },
+                    detail: format!("{mode} mode: the generators write U+{:04X} ({class}) for the line \"{}\": `{}`", c as u32, show(&line), show(r.as_bytes())),
+                });
+            }
+        }
+    }
+    let fail = |reading: &str, clause: &str, what: String| Fail {
+        group: "lossless",
+        clause: format!("generator:{reading}/{clause}"),
+        detail: format!("{mode} mode, line \"{}\" written by the generators as `{}`: {what}", show(&line), show(r.as_bytes())),
+    };
+    let e = match parse_with(false, r) {
+        Ok(e) => e,
+        Err(err) => return Err(fail("-", "parse-error", format!("does not parse back: {err}"))),
+    };
+    let (kind, expression, optional, multiline) = e.unmake();
+    let reading: &'static str = match kind.as_str() {
+        "equal" => "equal",
+        "no-eol" => "no-eol",
+        "escaped" => "escaped",
+        _ => "other",
+    };
+    if reading == "other" || optional || multiline {
+        return Err(fail(reading, "kind", format!("read back as {kind} optional={optional} multiline={multiline}")));
+    }
+    if expression != item.content {
+        return Err(fail(reading, "decode-differs", format!("stands for \"{}\"", show(&expression))));
+    }
+    // the original line, with its own newline state, under the kind it was written as
+    if !e.matches(&line) {
+        return Err(fail(reading, "no-match", "does not match the original line".into()));
+    }
+    let t_expr: Vec<u8> = match crate::oracle::rulematch::scan_line(r) {
+        crate::oracle::rulematch::Scan::Modifier { expr, .. } => expr.into_bytes(),
+        _ => r.as_bytes().to_vec(),
+    };
+    for m in mutants(&item.content, &t_expr) {
+        let mut m_nl = m.clone();
+        m_nl.push(b'\n');
+        if e.matches(&m) || e.matches(&m_nl) {
+            return Err(fail(reading, "mutant-match", format!("also matches the different content \"{}\"", show(&m))));
+        }
+    }
+    Ok(Seen {
+        reading: if reading == "escaped" { "escaped" } else { "equal" },
+        skew,
+        raw_kept: reading != "escaped",
+    })
+}
+
+fn check_item(via: &str, mode: &str, item: &Item) -> Result<Seen, Fail> {
+    if via == "generator" {
+        check_item_generator(mode, item)
+    } else {
+        check_item_escaper(mode, item)
+    }
+}
+
 /// smallest content with the same failure (group + clause), for a stable signature
-fn minimal_content(mode: &str, item: &Item, f: &Fail) -> Vec<u8> {
+fn minimal_content(via: &str, mode: &str, item: &Item, f: &Fail) -> Vec<u8> {
     minimise_seq(
         &item.content,
-        |c| matches!(check_item(mode, &Item { content: c.to_vec(), nl: item.nl }), Err(g) if g.group == f.group && g.clause == f.clause),
+        |c| matches!(check_item(via, mode, &Item { content: c.to_vec(), nl: item.nl }), Err(g) if g.group == f.group && g.clause == f.clause),
         300,
     )
 }
@@ -286,6 +404,8 @@ struct Layout {
     singles: u64,
     pairs: u64,
     scalars: u64,
+    /// generator path: `$ <scalar>` / `> <scalar>`, 2 modes
+    gen_scalars: u64,
     n_scalars: u64,
     pair_stride: u64,
 }
@@ -302,6 +422,7 @@ fn layout(tier: Tier, seed: u64) -> Layout {
         pairs: (65536u64 / pair_stride * 2).div_ceil(BATCH),
         // scalar alone and between two backslashes, 2 modes
         scalars: (n_scalars * 4).div_ceil(BATCH),
+        gen_scalars: (n_scalars * 2).div_ceil(BATCH),
         n_scalars,
         pair_stride,
     }
@@ -333,7 +454,7 @@ fn sweep_case(tier: Tier, seed: u64, k: u64) -> Option<C11Case> {
                 items.push(Item { content: vec![b], nl });
             }
         }
-        return Some(C11Case { mode: mode.into(), items, family: "sweep-byte".into() });
+        return Some(C11Case { mode: mode.into(), items, family: "sweep-byte".into(), via: String::new() });
     }
     let k = k - l.singles;
     if k < l.pairs {
@@ -352,7 +473,7 @@ fn sweep_case(tier: Tier, seed: u64, k: u64) -> Option<C11Case> {
                 items.push(Item { content: vec![a, b], nl: j % 2 == 0 });
             }
         }
-        return Some(C11Case { mode: mode.into(), items, family: "sweep-pair".into() });
+        return Some(C11Case { mode: mode.into(), items, family: "sweep-pair".into(), via: String::new() });
     }
     let k = k - l.pairs;
     if k < l.scalars {
@@ -366,7 +487,27 @@ fn sweep_case(tier: Tier, seed: u64, k: u64) -> Option<C11Case> {
             let s = if j % 2 == 0 { c.to_string() } else { format!("\\{c}\\") };
             items.push(Item { content: s.into_bytes(), nl: (j / 2) % 2 == 0 });
         }
-        return Some(C11Case { mode: mode.into(), items, family: "sweep-scalar".into() });
+        return Some(C11Case { mode: mode.into(), items, family: "sweep-scalar".into(), via: String::new() });
+    }
+    let k = k - l.scalars;
+    if k < l.gen_scalars {
+        // what the generators write for an output line that looks like a command and carries the scalar
+        let mode = if k % 2 == 0 { "ascii" } else { "unicode" };
+        let base = (k / 2) * BATCH;
+        for j in base..(base + BATCH).min(l.n_scalars) {
+            let Some(c) = nth_scalar(tier, seed, j) else { continue };
+            if c == '\n' {
+                continue;
+            }
+            let s = match j % 4 {
+                0 => format!("$ {c}"),
+                1 => format!("> {c}"),
+                2 => format!("$ left{c}right"),
+                _ => format!("> {c} (no-eol)"),
+            };
+            items.push(Item { content: s.into_bytes(), nl: (j / 4) % 3 != 0 });
+        }
+        return Some(C11Case { mode: mode.into(), items, family: "gen-sweep-scalar".into(), via: "generator".into() });
     }
     None
 }
@@ -403,10 +544,10 @@ impl Monitor for C11 {
     fn plan(&self, tier: Tier) -> Plan {
         // the sweep part does not depend on the seed in size except through the quick scalar slice (+-61 entries)
         let l = layout(tier, 1);
-        let sweeps = l.singles + l.pairs + l.scalars + 4;
+        let sweeps = l.singles + l.pairs + l.scalars + l.gen_scalars + 4;
         let mut p = Plan::new(
             sweeps + tier.pick(12_000, 600_000),
-            "case = batch of up to 64 lines under one escaping mode; sweeps: all 256 single bytes, byte pairs (all in thorough, a seeded quarter in quick), Unicode scalars as a one-character line and between two backslashes (all in thorough; quick: U+0000..U+30FF, every boundary of the Cc/Cf/Cn/Co tables, a seeded stride of 61); then random strings biased to backslash-adjacent control bytes, spelled escapes, truncated / overlong UTF-8, lone continuation bytes, syntax look-alike tails; non-trivial = a batch with at least one line that was written escaped; distinct = hash of the batch content",
+            "case = batch of up to 64 lines under one escaping mode; sweeps: all 256 single bytes, byte pairs (all in thorough, a seeded quarter in quick), Unicode scalars as a one-character line and between two backslashes (all in thorough; quick: U+0000..U+30FF, every boundary of the Cc/Cf/Cn/Co tables, a seeded stride of 61); then (generator path: what OutputStream::to_output_string writes, parsed back as it is) `$ ` / `> ` followed by every scalar of the same slice and a third of the random batches prefixed with `$ `, `> `, `$`, `>`; random strings biased to backslash-adjacent control bytes, spelled escapes, truncated / overlong UTF-8, lone continuation bytes, syntax look-alike tails; non-trivial = a batch with at least one line that was written escaped; distinct = hash of the batch content",
         );
         p.floor_nontrivial = tier.pick(2_000, 20_000);
         p.floor_buckets = vec![
@@ -417,7 +558,10 @@ impl Monitor for C11 {
             ("family:sweep-byte".into(), 4),
             ("family:sweep-pair".into(), 100),
             ("family:sweep-scalar".into(), 250),
-            ("family:random".into(), 2_000),
+            ("family:random".into(), 1_500),
+            ("family:gen-sweep-scalar".into(), 120),
+            ("family:gen-random".into(), 600),
+            ("generator:forced-escape".into(), 600),
         ];
         p.assumptions = vec![
             format!("general categories Cc/Cf/Cn from CPython unicodedata {} (committed table vh/oracle/unicode_tables.rs), not from the unicode_categories crate", ut::UNIDATA_VERSION),
@@ -433,10 +577,29 @@ impl Monitor for C11 {
             return c;
         }
         let mode = if rng.bool() { "ascii" } else { "unicode" };
+        if rng.chance(1, 3) {
+            // generator path: lines that look like a command (`$ `) or its continuation (`> `), also `$` / `>`
+            // alone and unterminated, followed by the hostile content classes
+            let items = (0..8)
+                .map(|_| {
+                    let mut it = random_item(rng);
+                    let prefix: &[u8] = *rng.pick(&[&b"$ "[..], b"> ", b"$ ", b"> ", b"$", b">", b"$  ", b""]);
+                    let mut c = prefix.to_vec();
+                    if !rng.chance(1, 6) {
+                        c.extend_from_slice(&it.content);
+                    }
+                    it.content = c;
+                    it.nl = !rng.chance(1, 3);
+                    it
+                })
+                .collect();
+            return C11Case { mode: mode.into(), items, family: "gen-random".into(), via: "generator".into() };
+        }
         C11Case {
             mode: mode.into(),
             items: (0..8).map(|_| random_item(rng)).collect(),
             family: "random".into(),
+            via: String::new(),
         }
     }
 
@@ -452,7 +615,7 @@ impl Monitor for C11 {
             if item.content.contains(&b'\n') {
                 continue;
             }
-            match check_item(&case.mode, item) {
+            match check_item(&case.via, &case.mode, item) {
                 Ok(seen) => {
                     if seen.reading == "escaped" {
                         escaped += 1;
@@ -471,10 +634,10 @@ impl Monitor for C11 {
             }
         }
         if let Some((_, item, f)) = worst {
-            let min = minimal_content(&case.mode, item, &f);
-            let cand = C11Case { mode: case.mode.clone(), items: vec![Item { content: min.clone(), nl: item.nl }], family: case.family.clone() };
+            let min = minimal_content(&case.via, &case.mode, item, &f);
+            let cand = C11Case { mode: case.mode.clone(), items: vec![Item { content: min.clone(), nl: item.nl }], family: case.family.clone(), via: case.via.clone() };
             LAST_MIN.with(|l| *l.borrow_mut() = Some((case.clone(), cand)));
-            let f_min = check_item(&case.mode, &Item { content: min.clone(), nl: item.nl }).err().unwrap_or(f.clone());
+            let f_min = check_item(&case.via, &case.mode, &Item { content: min.clone(), nl: item.nl }).err().unwrap_or(f.clone());
             return Checked::violated(signature(&case.mode, &f, &min), f_min.detail);
         }
         let mut h: Vec<u8> = case.mode.as_bytes().to_vec();
@@ -491,6 +654,20 @@ impl Monitor for C11 {
         }
         if skew > 0 {
             c = c.bucket("skew:cf-after-7.0");
+        }
+        if case.via == "generator" {
+            c = c.bucket("via:generator");
+            let esc = escaper(&case.mode);
+            let forced = case.items.iter().any(|i| {
+                let mut l = i.content.clone();
+                if i.nl {
+                    l.push(b'\n');
+                }
+                !l.is_empty() && OutputStream::from(l).to_output_string(None, &esc).starts_with("\\x")
+            });
+            if forced {
+                c = c.bucket("generator:forced-escape");
+            }
         }
         if raw > 0 && escaped > 0 {
             c = c.bucket("near:marker-decision-both-ways");
@@ -517,7 +694,7 @@ impl Monitor for C11 {
             if item.content.contains(&b'\n') {
                 continue;
             }
-            if let Err(f) = check_item(&case.mode, item) {
+            if let Err(f) = check_item(&case.via, &case.mode, item) {
                 let rank = fail_rank(&f);
                 if worst.as_ref().map_or(true, |(r, _, _)| rank < *r) {
                     worst = Some((rank, item, f));
@@ -525,11 +702,12 @@ impl Monitor for C11 {
             }
         }
         let Some((_, item, f)) = worst else { return vec![] };
-        let min = minimal_content(&case.mode, item, &f);
+        let min = minimal_content(&case.via, &case.mode, item, &f);
         let cand = C11Case {
             mode: case.mode.clone(),
             items: vec![Item { content: min, nl: item.nl }],
             family: case.family.clone(),
+            via: case.via.clone(),
         };
         if &cand == case {
             vec![]
@@ -543,10 +721,12 @@ impl Monitor for C11 {
         json!({
             "mode": case.mode,
             "family": case.family,
+            "via": if case.via.is_empty() { "Escaper::escaped_expectation" } else { "OutputStream::to_output_string" },
             "lines": case.items.iter().take(6).map(|i| {
                 let mut l = i.content.clone();
                 if i.nl { l.push(b'\n'); }
-                json!({"line": show(&l), "written": esc.escaped_expectation(&l)})
+                let written = if case.via == "generator" { OutputStream::from(l.clone()).to_output_string(None, &esc) } else { esc.escaped_expectation(&l) };
+                json!({"line": show(&l), "written": written})
             }).collect::<Vec<_>>(),
             "n_lines": case.items.len(),
         })
